@@ -33,6 +33,13 @@ impl SkipList<Vec<u8>, f64> {
 
 /// stream identity: the object that carries the entries AND the highest ID ever added
 pub struct StreamId { pub packed: u128 }
+/// an entry as the engine hands it on (opaque here) and the result record of the range functions (stream.rs StreamRangeResult)
+#[verifier::external_body]
+pub struct StreamEntry { _p: u8 }
+pub struct StreamRangeResult { pub entries: Vec<StreamEntry> }
+pub uninterp spec fn spec_stream_range(s: Stream, start: StreamId, end: StreamId, count: Option<usize>, reverse: bool) -> Seq<StreamEntry>;
+pub uninterp spec fn spec_stream_range_after(s: Stream, after: StreamId, count: Option<usize>) -> Seq<StreamEntry>;
+pub uninterp spec fn spec_stream_len(s: Stream) -> usize;
 impl Stream {
     #[verifier::external_body]
     pub fn new() -> (r: Self) { unimplemented!() }
@@ -44,10 +51,21 @@ impl Stream {
     pub fn delete(&self, ids: &Vec<StreamId>) -> (r: usize) { unimplemented!() }
     #[verifier::external_body]
     pub fn memory_usage(&self) -> (r: usize) { unimplemented!() }
+    /// ASSUMED CONTRACT (stream.rs Stream::len — unit stream_len of c16_pel): the entry counter at the moment of the call
     #[verifier::external_body]
-    pub fn len(&self) -> (r: usize) { unimplemented!() }
+    pub fn len(&self) -> (r: usize) ensures r == spec_stream_len(*self), { unimplemented!() }
     #[verifier::external_body]
     pub fn is_empty(&self) -> (r: bool) { unimplemented!() }
+    /// ASSUMED CONTRACTS (stream.rs Stream::range / Stream::range_after — units stream_range / stream_range_after of c16_pel, which prove
+    /// the window these functions return): here only "a function of the stream's content at the call and of the arguments"
+    #[verifier::external_body]
+    pub fn range(&self, start: &StreamId, end: &StreamId, count: Option<usize>, reverse: bool) -> (r: StreamRangeResult)
+        ensures r.entries@ == spec_stream_range(*self, *start, *end, count, reverse),
+    { unimplemented!() }
+    #[verifier::external_body]
+    pub fn range_after(&self, after_id: &StreamId, count: Option<usize>) -> (r: StreamRangeResult)
+        ensures r.entries@ == spec_stream_range_after(*self, *after_id, count),
+    { unimplemented!() }
     #[verifier::external_body]
     pub fn clear(&self) { unimplemented!() }
 }
